@@ -396,7 +396,14 @@ func (g *gen) laneSchedules() {
 			} else if !c.Echo {
 				c.Reply = g.msgs([]string{"T", "E", "D9"}[:g.rng.Intn(4)], tc, limit)
 			}
-			build(c, bodyOpt{sep: []string{"", "\n"}[g.rng.Intn(2)]})
+			sep := []string{"", "\n"}[g.rng.Intn(2)]
+			if limit > 0 && tc.Codec == "json" {
+				// whether separator whitespace counts towards the limit of
+				// the following object is unspecified: none before at-limit
+				// objects
+				sep = ""
+			}
+			build(c, bodyOpt{sep: sep})
 			g.sweepSchedules(c, 0, samples)
 		}
 	}
